@@ -1,13 +1,24 @@
-"""C03 -- format literals are interpreted exactly as std::fmt interprets them (parser half), and the
-parser half of C18 (totality) on the same harnesses.
+"""C03 -- format literals are interpreted exactly as std::fmt interprets them, and (same run) the
+parser half of C18 (totality).
 
 Function contracts `real_f(s) == spec_f(s)` on the REAL functions of /repo/impl/src/fmt/parsing.rs
 (copied byte-for-byte into the harness crate on every run) and on `Placeholder::parse_fmt_string`
-(extracted by item name from fmt/mod.rs), modular: callees are stubbed by their specifications.
+(extracted by item name from fmt/mod.rs). Leaves are verified on symbolic strings against the executable
+spec; composite functions are verified with every callee (real and spec twin) replaced by one deterministic
+uninterpreted function, i.e. for every behaviour of the callees. `format_string`, which Kani cannot
+discharge (Vec/iterator machinery), gets a native bounded-exhaustive stand-in.
+
+A failed function-level obligation is not yet a violation of the property (the property speaks about whole
+literals): the verifier's counterexample is replayed natively, embedded into whole literals, and only a
+literal on which the real parser disagrees with std's grammar is reported (VIOLATION); otherwise the
+outcome is UNDECIDED (exit 2).
 """
 import hashlib
+import json
 import os
 import re
+import sys
+import time
 
 from vlib import core
 from vlib.core import Family, Program, Harness
@@ -15,9 +26,10 @@ from vlib.core import Family, Program, Harness
 SPECS = os.path.join(core.VERIF, "specs")
 
 BOUNDS = {
-    "quick": dict(W_WS=2, A_L1=4, W_L1=2, A_INT=4, A_TYPE=3, A_L2=4, A_SPEC=5, W_SPEC=3, A_FMT=4, A_FS=5),
-    "thorough": dict(W_WS=3, A_L1=6, W_L1=4, A_INT=7, A_TYPE=4, A_L2=6, A_SPEC=8, W_SPEC=6, A_FMT=7, A_FS=8),
+    "quick": dict(W_WS=2, A_L1=4, W_L1=2, A_INT=4, A_TYPE=3, A_UF=6, W_UF=4, A_FS=2),
+    "thorough": dict(W_WS=3, A_L1=6, W_L1=4, A_INT=7, A_TYPE=4, A_UF=8, W_UF=6, A_FS=3),
 }
+SWEEP_LEN = {"quick": 4, "thorough": 5}
 
 APPEND = '''
 // ---- appended by /verif/props/C03.py; nothing above this line is modified ------------------------------
@@ -27,6 +39,82 @@ pub(crate) mod spec;
 #[path = "c03_proofs.rs"]
 mod proofs;
 '''
+
+PH_APPEND = '''
+// ---- appended by /verif/props/C03.py ------------------------------------------------------------------------
+/// view of the real `Placeholder::parse_fmt_string` for the native oracle
+pub(crate) fn x_parse(s: &str) -> Vec<(Result<usize, String>, bool, &'static str)> {
+    Placeholder::parse_fmt_string(s)
+        .into_iter()
+        .map(|p| {
+            (
+                match p.arg {
+                    Parameter::Positional(i) => Ok(i),
+                    Parameter::Named(n) => Err(n),
+                },
+                p.has_modifiers,
+                p.trait_name,
+            )
+        })
+        .collect()
+}
+#[cfg(kani)]
+#[path = "c03_ph_proofs.rs"]
+mod proofs;
+'''
+
+
+class LostAnchor(Exception):
+    pass
+
+
+def extract_item(src, start_re):
+    """Extract one top-level item (with its preceding doc comments / attributes) by brace matching."""
+    m = re.search(start_re, src, re.M)
+    if not m:
+        raise LostAnchor("item not found: %s" % start_re)
+    lines = src[:m.start()].split("\n")
+    j = len(lines) - 2
+    while j >= 0 and (lines[j].startswith("///") or lines[j].startswith("#[")):
+        j -= 1
+    start = len("\n".join(lines[:j + 1])) + 1 if j >= 0 else 0
+    i = src.index("{", m.start())
+    depth = 0
+    n = len(src)
+    p = i
+    in_str = False
+    while p < n:
+        c = src[p]
+        if in_str:
+            if c == "\\":
+                p += 1
+            elif c == '"':
+                in_str = False
+        elif c == '"':
+            in_str = True
+        elif c == "/" and src[p:p + 2] == "//":
+            p = src.index("\n", p)
+            continue
+        elif c == "{":
+            depth += 1
+        elif c == "}":
+            depth -= 1
+            if depth == 0:
+                return src[start:p + 1]
+        p += 1
+    raise LostAnchor("unbalanced braces after %s" % start_re)
+
+
+def placeholder_module():
+    src = open(os.path.join(core.REPO, "impl/src/fmt/mod.rs")).read()
+    items = [
+        extract_item(src, r"^enum Parameter \{"),
+        extract_item(src, r"^impl<'a> From<parsing::Argument<'a>> for Parameter \{"),
+        extract_item(src, r"^struct Placeholder \{"),
+        extract_item(src, r"^impl Placeholder \{"),
+    ]
+    body = "\n\n".join(items)
+    return "use crate::parsing_x as parsing;\n\n" + body + "\n" + PH_APPEND, hashlib.sha256(body.encode()).hexdigest()
 
 
 def harness_list(b):
@@ -54,18 +142,35 @@ def harness_list(b):
     add("ob_align", "align", [], wide(False, 1))
     add("ob_sign", "sign", [], wide(False, 1))
     add("ob_type", "type_", ["whitespaces"], asc(b["A_TYPE"]))
-    add("ob_argument", "argument", ["identifier", "integer"], asc(b["A_L2"]))
-    add("ob_parameter", "parameter", ["argument"], asc(b["A_L2"]))
-    add("ob_count", "count", ["parameter", "integer"], asc(b["A_L2"]))
-    add("ob_precision", "precision", ["count"], asc(b["A_L2"]))
-    add("ob_format_spec", "format_spec", ["align", "sign", "count", "precision", "type_"], asc(b["A_SPEC"]))
-    add("ob_format_spec_wide_fill", "format_spec", ["align", "sign", "count", "precision", "type_"], wide(False, b["W_SPEC"]))
-    add("ob_format", "format", ["argument", "format_spec", "whitespaces"], asc(b["A_FMT"]))
-    add("ob_maybe_format", "maybe_format", ["format"], asc(b["A_FMT"]))
-    add("ob_format_string", "format_string", ["maybe_format", "text"], asc(b["A_FS"]), cover=3)
+    uf = "; callees abstracted by deterministic uninterpreted functions (every callee behaviour): "
+    add("ob_argument", "argument", ["identifier", "integer"], asc(b["A_UF"]) + uf + "identifier, integer")
+    add("ob_parameter", "parameter", ["argument"], asc(b["A_UF"]) + uf + "argument")
+    add("ob_count", "count", ["parameter", "integer"], asc(b["A_UF"]) + uf + "parameter, integer")
+    add("ob_precision", "precision", ["count"], asc(b["A_UF"]) + uf + "count")
+    add("ob_format_spec", "format_spec", ["align", "sign", "count", "precision", "type_"], asc(b["A_UF"]) + uf + "align, sign, count, precision, type_")
+    add("ob_format_spec_wide_fill", "format_spec", ["align", "sign", "count", "precision", "type_"], wide(False, b["W_UF"]) + uf + "align, sign, count, precision, type_")
+    add("ob_format", "format", ["argument", "format_spec", "whitespaces"], asc(b["A_UF"]) + uf + "argument, format_spec, whitespaces")
+    add("ob_maybe_format", "maybe_format", ["format"], asc(b["A_UF"]) + uf + "format")
     H.append(Harness("tot_integer_long", "integer(s) neither panics nor overflows on digit strings up to 21 chars", bounded="<= 21 digits",
                      fn="fmt::parsing::integer", cover_min=2))
     return H
+
+
+def ph_harness_list():
+    return [
+        Harness("ob_parse_fmt_string_one", "Placeholder::parse_fmt_string on ONE placeholder, EVERY parser output: argument (explicit / implicit, `.*` "
+                "takes the counter first), has_modifiers == any of fill/align/sign/#/0/width/precision/x?/X?, trait per type == std's rule",
+                bounded="1 placeholder; parser output symbolic", fn="fmt::Placeholder::parse_fmt_string", cover_min=1,
+                stubs=["parsing::format_string -> generator of arbitrary FormatString"]),
+        Harness("ob_parse_fmt_string_counter", "Placeholder::parse_fmt_string on TWO placeholders: std's implicit counter (explicit arguments do not "
+                "advance it, an omitted argument takes it and advances, `.*` takes it first and advances once more) for every combination of argument kind and precision kind",
+                bounded="2 placeholders; counter-relevant parts of the parser output symbolic", fn="fmt::Placeholder::parse_fmt_string", cover_min=1,
+                stubs=["parsing::format_string -> generator"]),
+        Harness("ob_parse_fmt_string_rejected", "a literal the parser rejects yields no placeholders", bounded="one call",
+                fn="fmt::Placeholder::parse_fmt_string"),
+        Harness("ob_type_tables", "Type::trait_name / Type::is_trivial == documented table, all 11 types", bounded=None,
+                fn="fmt::parsing::Type::trait_name, Type::is_trivial"),
+    ]
 
 
 def family(tier, seed, only=None):
@@ -75,25 +180,243 @@ def family(tier, seed, only=None):
     consts = "".join("pub(crate) const %s: usize = %d;\n" % kv for kv in b.items())
     proofs = consts + open(os.path.join(SPECS, "c03_proofs.rs")).read()
     hs = harness_list(b)
+    phs = ph_harness_list()
     only = only or [x for x in os.environ.get("VERIF_ONLY", "").split(",") if x]
     if only:
         hs = [h for h in hs if h.name in only]
-    prog = Program("parsing_x", "byte-for-byte copy of /repo/impl/src/fmt/parsing.rs (sha256 %s) + appended spec/proof modules" % sha[:16],
-                   real + APPEND, hs, meta={"proofs_file": "src/c03_proofs.rs"})
+        phs = [h for h in phs if h.name in only]
+    ph_src, ph_sha = placeholder_module()
+    progs = [
+        Program("parsing_x", "byte-for-byte copy of /repo/impl/src/fmt/parsing.rs (sha256 %s) + appended spec/proof modules" % sha[:16],
+                real + APPEND, hs, meta={"proofs_file": "src/c03_proofs.rs"}),
+        Program("placeholder_x", "items Parameter, From<Argument> for Parameter, Placeholder, impl Placeholder extracted by name from "
+                "/repo/impl/src/fmt/mod.rs (sha256 %s); every other item of that file is dropped" % ph_sha[:16],
+                ph_src, phs, meta={"proofs_file": "src/c03_ph_proofs.rs"}),
+    ]
     return Family(
-        "C03", [prog],
+        "C03", progs,
+        common_src=open(os.path.join(SPECS, "c03_oracle.rs")).read(),
         deps={"unicode-xid": '"0.2.2"'},
-        kani_flags=["-Z", "stubbing"],
-        unwind=None,
+        kani_flags=["-Z", "stubbing", "--no-assertion-reach-checks"],
         level="model_checking",
-        extra_files={"src/c03_spec.rs": open(os.path.join(SPECS, "fmt_spec.rs")).read(), "src/c03_proofs.rs": proofs},
-        functions_under_contract=sorted({h.fn for h in hs}),
-        trusted_base=["spec functions in /verif/specs/fmt_spec.rs (written from std::fmt's documented grammar; validated against rustc in the thorough tier)"],
+        extra_files={"src/c03_spec.rs": open(os.path.join(SPECS, "fmt_spec.rs")).read(), "src/c03_proofs.rs": proofs,
+                     "src/c03_ph_proofs.rs": open(os.path.join(SPECS, "c03_ph_proofs.rs")).read(),
+                     "src/bin/oracle.rs": "fn main() { std::process::exit(h_c03::common::oracle_main()) }\n"},
+        functions_under_contract=sorted({h.fn for h in hs + phs}),
+        trusted_base=["spec functions in /verif/specs/fmt_spec.rs (written from std::fmt's documented grammar and experiments against rustc)"],
         assumptions=["bounded string length per function (see each obligation); unwinding assertions on",
                      "XID_Start / XID_Continue of the (single) non-ASCII character are uninterpreted booleans: the proof holds for every XID predicate",
-                     "at most one non-ASCII character per input string"],
-        rule="one obligation per parser function; inputs symbolic within the stated shape; callees stubbed by their specs",
-        harness_timeout=1500,
+                     "at most one non-ASCII character per input string",
+                     "composite functions: callees replaced by deterministic uninterpreted functions returning an arbitrary suffix and value; "
+                     "assumed callee facts: determinism, result is a suffix on a char boundary, text/maybe_format/identifier/integer/... consume >= 1 byte on success",
+                     "format_string itself: native bounded-exhaustive comparison only (Kani runs out of memory on Vec/iterator code)"],
+        rule="one obligation per parser function; inputs symbolic within the stated shape; callees stubbed by specs / uninterpreted functions",
+        harness_timeout=1200,
         bounded_note="every obligation of C03 is bounded in string length; none is counted as proved",
-        extra_cov={"parsing_rs_sha256": sha},
+        extra_cov={"parsing_rs_sha256": sha, "placeholder_items_sha256": ph_sha},
     )
+
+
+# ---------------------------------------------------------------------------------------------------------
+def build_oracle(log):
+    cd = core.crate_dir("C03")
+    td = os.path.join(core.target_dir("C03"), "native")
+    rc, out, dt = core.sh(["cargo", "build", "--release", "--offline", "--bin", "oracle", "--target-dir", td], cwd=cd, timeout=1200)
+    if rc != 0:
+        log("native oracle does not build:\n" + out[-3000:])
+        return None
+    return os.path.join(td, "release", "oracle")
+
+
+def oracle(binpath, *args, timeout=3600):
+    rc, out, dt = core.sh([binpath] + list(args), timeout=timeout)
+    return rc, out, dt
+
+
+def rust_debug_str_to_py(lit):
+    """inverse of Rust's `{:?}` for &str (enough for the escapes Debug produces)"""
+    body = lit[1:-1]
+    out = []
+    i = 0
+    while i < len(body):
+        c = body[i]
+        if c != "\\":
+            out.append(c)
+            i += 1
+            continue
+        n = body[i + 1]
+        if n == "u":
+            j = body.index("}", i)
+            out.append(chr(int(body[i + 3:j], 16)))
+            i = j + 1
+            continue
+        out.append({"n": "\n", "r": "\r", "t": "\t", "0": "\0", "\\": "\\", '"': '"', "'": "'"}.get(n, n))
+        i += 2
+    return "".join(out)
+
+
+def cex_inputs(fam, prog, h, log):
+    """Kani counterexample -> the concrete input string(s) of the harness (printed by `report` under native playback)."""
+    cd = core.crate_dir(fam.prop)
+    td = core.target_dir(fam.prop)
+    pretty = "%s::proofs::%s" % (prog.key, h.name)
+    cmd = core.kani_cmd(fam, ["--harness", pretty, "--exact", "-Z", "concrete-playback", "--concrete-playback=print", "--target-dir", td])
+    rc, out, dt = core.sh(cmd, cwd=cd, timeout=fam.harness_timeout + 600)
+    blocks = re.findall(r"```\s*\n(.*?)```", out, re.S)
+    if not blocks:
+        return [], None, out[-3000:]
+    test_src = "\n".join(blocks)
+    tnames = re.findall(r"fn (kani_concrete_playback_\w+)", test_src)
+    path = os.path.join(cd, prog.meta["proofs_file"])
+    src = open(path).read()
+    src = src.replace("// PLAYBACK-INSERTION-POINT", test_src + "\n// PLAYBACK-INSERTION-POINT", 1)
+    open(path, "w").write(src)
+    cmd2 = ["cargo", "kani", "playback", "-Z", "concrete-playback", "-Z", "stubbing", "--", "--exact", "--nocapture", "--test-threads", "1"] + \
+           [prog.key + "::proofs::" + n for n in tnames]
+    rc2, out2, dt2 = core.sh(cmd2, cwd=cd, timeout=1200, env=dict(core.ENV, CARGO_TARGET_DIR=td + "/playback"))
+    ins = []
+    for m in re.finditer(r'^CEX-INPUT ("(?:[^"\\]|\\.)*")', out2, re.M):
+        try:
+            s = rust_debug_str_to_py(m.group(1))
+        except Exception:
+            continue
+        if s not in ins and "\0" not in s:
+            ins.append(s)
+    return ins, test_src, out2[-3000:]
+
+
+def run(tier, seed, view="C03"):
+    t0 = time.time()
+
+    def log(s):
+        print("[C03] %s" % s, file=sys.stderr, flush=True)
+    try:
+        fam = family(tier, seed)
+    except LostAnchor as e:
+        print("UNDECIDED property=C03 lost extraction anchor: %s" % e)
+        return 2
+    results, dropped, info = core.run_family(fam, fam.programs, log)
+    if results is None or dropped:
+        print("UNDECIDED property=C03 the harness crate (copied parser + extracted items + spec) does not build: %s" % (
+            (info or {}).get("build_failure", "")[-1500:] if results is None else sorted(dropped)))
+        for k, bl in (dropped or {}).items():
+            log(bl[0][:1500])
+        core.write_evidence(fam, tier, seed, [], results or {}, dropped, info or {}, time.time() - t0, ["build failure"], 0, [])
+        return 2
+    by_key = {p.key: p for p in fam.programs}
+    binpath = build_oracle(log)
+    discharged, undecided, violations = [], [], []
+    failed = []
+    for pretty, r in results.items():
+        p = by_key[r["program"]]
+        h = [x for x in p.harnesses if x.name == r["harness"]][0]
+        okey = "%s/%s" % (p.key, h.name)
+        st = r["status"]
+        if st == "SUCCESSFUL":
+            if h.cover_min and (r.get("satisfied") or 0) < h.cover_min:
+                undecided.append("%s: only %s of %s reachability covers satisfied" % (okey, r.get("satisfied"), h.cover_min))
+            elif not r.get("total"):
+                undecided.append("%s: zero obligations generated" % okey)
+            else:
+                discharged.append(pretty)
+        elif st is None or (r.get("error") or {}).get("exit_status") in ("timeout", "out_of_memory"):
+            undecided.append("%s: no verdict (%s)" % (okey, (r.get("error") or {}).get("exit_status") or "timeout / missing"))
+        elif r["failed_checks"] and all("unwinding assertion" in d for d, _ in r["failed_checks"]):
+            undecided.append("%s: unwinding assertion failed (bound too small)" % okey)
+        elif not r["failed_checks"]:
+            undecided.append("%s: verifier error %s" % (okey, r.get("error")))
+        else:
+            failed.append((p, h, r, okey))
+    # native bounded stand-in for format_string / whole literals
+    sweep = {}
+    if binpath:
+        rc, out, dt = oracle(binpath, "sweep", str(SWEEP_LEN[tier]))
+        m = re.search(r"SWEEP strings=(\d+) accepted_by_spec=(\d+) not_exactly_equal=(\d+) violations=(\d+)", out)
+        if m:
+            sweep = dict(strings=int(m.group(1)), accepted_by_spec=int(m.group(2)), not_exactly_equal=int(m.group(3)),
+                         violations=int(m.group(4)), maxlen=SWEEP_LEN[tier], wall_s=round(dt, 1))
+        mism = [ln[len("MISMATCH "):] for ln in out.splitlines() if ln.startswith("MISMATCH ")]
+        for i, mm in enumerate(mism[:5]):
+            prop = "C18" if mm.startswith("PANIC") else "C03"
+            okey = "literal_sweep/%d" % i
+            path = core.write_replay(prop, "sweep_%d" % i, {
+                "property": prop, "obligation": "bounded stand-in: for every string over the grammar alphabet of <= %d symbols, "
+                "std accepts s ==> derive's format_string/format/placeholders == std's" % SWEEP_LEN[tier],
+                "failing_literal": mm, "how_to_replay": "./check C03 --replay <this file>"})
+            violations.append((prop, okey, path, "", mm))
+        if not m:
+            undecided.append("native sweep produced no summary: %s" % out[-500:])
+    else:
+        undecided.append("native oracle did not build")
+    # failed function-level obligations: replay + lift to whole literals
+    for p, h, r, okey in failed[:4]:
+        desc = "; ".join("%s @ %s" % (d, l) for d, l in r["failed_checks"][:3])
+        log("obligation %s FAILED (%s): extracting counterexample, replaying natively and lifting to whole literals" % (okey, desc))
+        ins, test_src, pbout = cex_inputs(fam, p, h, log)
+        payload = {"obligation": "%s -- %s" % (okey, h.obligation), "function_under_contract": h.fn, "failed_checks": r["failed_checks"],
+                   "verifier_output": r["text"][-4000:], "counterexample_inputs": ins, "counterexample_test": test_src,
+                   "native_playback_output": pbout, "tier": tier}
+        lifted = []
+        if binpath and ins:
+            rc, out, dt = oracle(binpath, "lift", *ins)
+            lifted = [ln[len("MISMATCH "):] for ln in out.splitlines() if ln.startswith("MISMATCH ")]
+        if lifted:
+            for mm in lifted[:2]:
+                prop = "C18" if mm.startswith("PANIC") else "C03"
+                path = core.write_replay(prop, okey, dict(payload, property=prop, failing_literal=mm))
+                violations.append((prop, okey, path, "", mm))
+        elif p.key == "placeholder_x" and h.name.startswith("ob_parse_fmt_string"):
+            # the placeholder-list contract IS the top-level statement (counter rule) over every parser output: no lifting needed
+            path = core.write_replay("C03", okey, dict(payload, property="C03"))
+            violations.append(("C03", okey, path, "no-failing-input-found", desc))
+        else:
+            path = core.write_replay("C03", okey + "__not_lifted", dict(payload, property="C03"))
+            undecided.append("%s: function-level contract fails in the verifier (%s; inputs %s) but no whole literal was found on which the "
+                             "real parser disagrees with std::fmt -- internal behaviour changed, property not shown violated; see %s" % (okey, desc, ins[:3], path))
+    for p, h, r, okey in failed[4:]:
+        undecided.append("%s: failed, not analysed (cap)" % okey)
+    wall = time.time() - t0
+    fam.extra_cov["native_sweep"] = sweep
+    v03 = [v for v in violations if v[0] == "C03"]
+    v18 = [v for v in violations if v[0] == "C18"]
+    core.write_evidence(fam, tier, seed, discharged, results, dropped, info, wall, undecided, len(v03), [])
+    write_c18_evidence(fam, tier, seed, discharged, results, info, wall, undecided, len(v18), sweep)
+    mine = [v for v in violations if v[0] == view]
+    other = [v for v in violations if v[0] != view]
+    for prop, okey, path, suffix, mm in mine:
+        print("VIOLATION property=%s replay=%s obligation=%s %s %s" % (prop, path, okey, mm.replace("\n", " ")[:400], suffix))
+    for prop, okey, path, suffix, mm in other:
+        print("NOTE (belongs to %s, reported by ./check %s): %s %s" % (prop, prop, okey, mm.replace("\n", " ")[:300]))
+    for u in undecided:
+        print("UNDECIDED property=%s %s" % (view, u[:900]))
+    n_ob = sum(len(p.harnesses) for p in fam.programs)
+    print("%s %s: %d/%d function obligations discharged (all bounded), native sweep %s, %d violations, %d undecided, %.0fs" % (
+        view, tier, len(discharged), n_ob, sweep, len(mine), len(undecided), wall))
+    if mine:
+        return 1
+    if undecided:
+        return 2
+    return 0
+
+
+def write_c18_evidence(fam, tier, seed, discharged, results, info, wall, undecided, violations, sweep):
+    dset = set(discharged)
+    checks = sum((r.get("total") or 0) for k, r in results.items() if k in dset)
+    ev = {
+        "property_id": "C18", "tier": tier, "seed": seed, "level": "model_checking",
+        "coverage": {
+            "evaluations": len(results), "distinct_nontrivial": len(dset),
+            "rule": "parser half only: every C03 harness is instrumented by Kani with panic, arithmetic-overflow, slice/str-index and pointer checks; "
+                    "a harness counts iff all of them are discharged on its bounded input domain; plus integer() on digit strings up to 21 chars and a "
+                    "native sweep (catch_unwind) over all strings of <= %s alphabet symbols" % sweep.get("maxlen"),
+            "samples": [{"harness": k, "cbmc_properties": results[k].get("total")} for k in sorted(dset)[:6]],
+            "obligations": len(results), "discharged": len(dset), "checker_cmd": info.get("cmd", ""),
+            "trusted_base": core.COMMON_TRUSTED, "cbmc_safety_and_functional_properties_discharged": checks,
+            "native_sweep": sweep, "undecided": undecided, "exhaustive": False,
+            "not_covered": "token-stream inputs, syn-level expanders (impl/src/parsing.rs, utils.rs, error.rs ...), time bounds",
+        },
+        "assumptions": ["bounded string lengths as in C03", "expander half of C18 is not reachable by this technique"],
+        "wall_s": round(wall, 1), "violations": violations,
+    }
+    with open(os.path.join(core.VERIF, "evidence", "C18.json"), "w") as f:
+        json.dump(ev, f, indent=1)
